@@ -360,7 +360,7 @@ def core_program(rng):
     g = Gen(rng, ticks=True, derived=False, forbid={"atom-key"})
     top = Scope()
     forms = []
-    templates = rng.sample(["adder", "count", "compose", "varsum", "internal", "apply", "plain", "plain", "plain"], rng.randint(3, 6))
+    templates = rng.sample(["adder", "count", "compose", "varsum", "internal", "apply", "shadowdef", "shadowdef", "plain", "plain", "plain"], rng.randint(3, 6))
     for t in templates:
         if t == "adder":        # closures of order 3
             a, b, c = rng.sample(NAMES, 3)
@@ -394,6 +394,26 @@ def core_program(rng):
             forms.append(define(name, f))
             top.vars[name] = ty
             forms.append(g.call(var(name), ty, top, 2, True))
+        elif t == "shadowdef":
+            # an internal definition shadows a name of the enclosing scope for the extent of ONE call of the inner
+            # procedure only (inner procedures with 0..2 parameters, called directly / through apply / twice)
+            a, r_, extra = rng.sample(NAMES, 3)
+            k = rng.randint(0, 2)
+            ips = rng.sample([n for n in NAMES if n not in (a, r_, extra)], k)
+            inner = lam(ips, [app("list", var(a), *[var(p) for p in ips])], defs=[(a, quote(vsym("inner")))],
+                        rest=(extra if rng.random() < 0.3 else ""))
+            iargs = [lit(rng.randint(0, 9)) for _ in range(k)]
+            call = app("thunk", *iargs) if rng.random() < 0.6 else app("apply", var("thunk"), app("list", *iargs))
+            oname = g.fresh(top, PROCNAMES)
+            forms.append(define(oname, lam([a], [app("list", var(r_), var(a), call)], defs=[("thunk", inner), (r_, call)])))
+            forms.append(app(oname, quote(vsym("outer"))))
+            top.vars[oname] = "opaque"
+            if rng.random() < 0.5:
+                gname = g.fresh(top)
+                forms.append(define(gname, quote(vsym("global"))))
+                forms.append(define("toplevel-thunk", lam([], [var(gname)], defs=[(gname, quote(vsym("local")))])))
+                forms.append(app("list", app("toplevel-thunk"), var(gname)))
+                top.vars[gname] = "sym"
         elif t == "apply":
             f, ty = g.lambda_(["int", "int"], "int", False, top, 2, True)
             forms.append(app("apply", f, app("list", lit(rng.randint(-5, 5)), lit(rng.randint(-5, 5)))))
@@ -466,8 +486,13 @@ def store_history(rng, nsteps):
         define("shadow-g", lam(["g"], [set_("g", app("+", var("g"), lit(100))), var("g")])),
         define("set-first!", lam(["vec", "val"], [app("vector-set!", var("vec"), lit(0), var("val")), var("vec")])),
         define("identity", lam(["x"], [var("x")])),
+        # closures created in the ARGUMENTS of a loop's tail calls: each closes over the n of its own iteration
+        define("make-loop-counters", lam(["n", "acc"], [if_(app("=", var("n"), lit(0)), var("acc"),
+               app("make-loop-counters", app("-", var("n"), lit(1)),
+                   app("cons", lam([], [set_("n", app("+", var("n"), lit(10))), var("n")]), var("acc"))))])),
     ]
     counters, accs, shared, vecs, lists, boxes, caps = [], [], [], [], [], [], []
+    loops = {}
     lens = {}
 
     def vec_expr():
@@ -490,7 +515,8 @@ def store_history(rng, nsteps):
         return app("vector-ref", var(x), lit(j)), lens[x][j]
 
     for step in range(nsteps):
-        ops = ["newcounter", "newacc", "newshared", "newvec", "global"]
+        ops = ["newcounter", "newacc", "newshared", "newvec", "global", "newloop"]
+        if loops: ops += ["bumploop", "bumploop"]
         if counters or accs: ops += ["call", "call", "call2"]
         if shared: ops += ["shared", "shared"]
         if vecs: ops += ["alias", "vset", "vset", "vset", "container", "probe", "probe", "capture", "vref", "passset", "literalset"]
@@ -501,6 +527,18 @@ def store_history(rng, nsteps):
             forms.append(define(n, app("make-counter")))
             if n not in counters: counters.append(n)
             if n in accs: accs.remove(n)
+        elif op == "newloop":
+            n = "lc%d" % rng.randint(1, 2)
+            k = rng.randint(1, 3)
+            forms.append(define(n, app("make-loop-counters", lit(k), quote(NIL))))
+            loops[n] = k
+        elif op == "bumploop":
+            n = rng.choice(sorted(loops))
+            j = rng.randrange(loops[n])
+            e = var(n)
+            for _ in range(j):
+                e = app("cdr", e)
+            forms.append(app(app("car", e)))
         elif op == "newacc":
             n = "a%d" % rng.randint(1, 3)
             forms.append(define(n, app("make-acc", lit(rng.randint(0, 9)))))
@@ -573,7 +611,11 @@ def store_history(rng, nsteps):
             else:
                 n = "u%d" % rng.randint(1, 2)
                 items = [vec_expr() for _ in range(rng.randint(1, 3))]
-                forms.append(define(n, app("vector", *[e for e, _ in items])))
+                if rng.random() < 0.35:
+                    items = [items[0]] * rng.randint(1, 3)         # every slot of (make-vector k v) is the same object v
+                    forms.append(define(n, app("make-vector", lit(len(items)), items[0][0])))
+                else:
+                    forms.append(define(n, app("vector", *[e for e, _ in items])))
                 if n not in boxes: boxes.append(n)
                 if n in lists: lists.remove(n)
             lens[n] = [k for _, k in items]
